@@ -361,6 +361,14 @@ func scenarioReelectedLeaderRead(r *vh.Rand) (string, []string) {
 		g.apply(k, 100)
 	}
 	g.settle(nil)
+	// log queries on the leader and a follower: inside, across and beyond the committed range
+	for _, k := range []uint64{1, 2} {
+		st := raftsim.Inspect(g.c.Nodes[k])
+		for _, q := range [][2]uint64{{st.FirstIndex, st.Committed + 1}, {st.Committed, st.Committed + 5}, {st.Committed + 1, st.Committed + 2}, {0, 1}, {1, st.Committed}} {
+			g.do(fmt.Sprintf("LQ %d %d %d", k, q[0], q[1]))
+			g.update(k)
+		}
+	}
 	g.nextKey++
 	g.do(fmt.Sprintf("R 1 %d 1", g.nextKey))
 	g.update(1)
